@@ -1135,6 +1135,9 @@ func (c *Case) genStruct(t *rapid.T, depth int, label string) *Node {
 			f.N = leaf(KTime, tTime, "")
 		default:
 			f.N = leaf(KBigInt, tBigInt, "")
+			if rapid.IntRange(0, 2).Draw(t, fl+".bigByValue") == 0 {
+				f.N = leaf(KBigInt, tof(big.Int{}), "") // the number held as a value instead of through a pointer
+			}
 		}
 		if anonymous {
 			dup := false
